@@ -46,6 +46,7 @@ def expected(d, sub):
 def run(ctx):
     docs = vlib.doc_pool_small() + list(vlib.BASE_DOCS)
     docs += [vlib.rand_doc(ctx.rng, 4) for _ in range(3000 if ctx.tier == "quick" else 60000)]
+    docs += vlib.scale_docs()                     # wide / deep / long-key / odd-key documents
     docs = [d for d in docs if vlib.nodup_doc(d)]
     allsub = []
     for d in docs:
